@@ -94,20 +94,36 @@ def op_keys(op):
     return set()
 
 
+REMOVERS = ('delitem', 'ipop', 'pop', 'popitem', 'delete', 'clear', 'dpop', 'dpopleft')
+
+
 def expand_setdefault(ops):
     """Index.setdefault is documented (and anchored) as a get/add loop: model
-    a top-level call as up to two atomic insert attempts (result immaterial,
-    the second optional) plus the final lookup that produced its result."""
+    a top-level call as atomic insert attempts (result immaterial; one per
+    overlapping removal by another client may be needed, the extra ones
+    optional) plus the final lookup that produced its result."""
     out = []
     for h in ops:
         if h['op'].get('op') != 'setdefault' or h.get('ret') is None or h['res'][0] != 'ok':
             out.append(h)
             continue
+        extra = 0
+        for b in ops:
+            if b is h or b['task'] == h['task']:
+                continue
+            names = [b['op'].get('op')]
+            if names[0] == 'txn':
+                names = [s.get('op') for s in b['op']['body']]
+            if not any(n in REMOVERS for n in names):
+                continue
+            bret = INF if b.get('ret') is None else b['ret']
+            if b['inv'] < h['ret'] and h['inv'] < bret:
+                extra += 1
         add = {'op': 'add', 'k': h['op']['k'], 'v': h['op']['v']}
-        a1 = dict(h, op=add, anyres=True, tolerate=False)
-        a2 = dict(h, op=add, anyres=True, tolerate=False, ret=None)
-        g = dict(h, op={'op': 'getitem', 'k': h['op']['k']}, tolerate=False)
-        out.extend([a1, a2, g])
+        out.append(dict(h, op=add, anyres=True, tolerate=False))
+        for _ in range(min(extra, 5)):
+            out.append(dict(h, op=add, anyres=True, tolerate=False, ret=None))
+        out.append(dict(h, op={'op': 'getitem', 'k': h['op']['k']}, tolerate=False))
     return out
 
 
